@@ -230,7 +230,7 @@ func genPrograms(k *engine.Case, f family) []clientProg {
 				o.val = next
 				next++
 				if f == famPri {
-					o.prio = r.Intn(3)
+					o.prio = drawPrio(r)
 				}
 			}
 			p.ops = append(p.ops, o)
